@@ -3,7 +3,7 @@ from __future__ import annotations
 
 import z3
 
-from symx.api import Raised
+from symx.api import ShapeMismatch, Raised
 
 def _q(f):
     n, d = float(f).as_integer_ratio()
@@ -110,6 +110,8 @@ def product_indices(shape):
 
 def getcell(a, idx):
     for i in idx:
+        if not isinstance(a, (list, tuple)) or not -len(a) <= i < len(a):
+            raise ShapeMismatch(f"no cell {list(idx)}")
         a = a[i]
     return a
 
